@@ -650,6 +650,8 @@ struct Rules<'a> {
     fmt_interp: bool,
     /// generated items for R11: (name, code)
     fmt_items: Vec<(String, String)>,
+    /// the macro being visited is the whole body of a match arm (an expression of the arms' type)
+    arm_body_macro: bool,
 }
 
 fn path_str(p: &syn::Path) -> String {
@@ -719,6 +721,8 @@ impl<'a> Rules<'a> {
                 }
             }
             "format" => self.push("R5", whole, vec![lit("()")]),
+            // as the body of a match arm the macro stands for a value of the arms' type: generic stub
+            "panic" | "unreachable" | "unimplemented" | "todo" if self.arm_body_macro => self.push("R6", whole, vec![lit("vpanic_any()")]),
             "panic" | "unreachable" | "unimplemented" | "todo" => self.push("R6", whole, vec![lit("vpanic()")]),
             "assert" | "debug_assert" => {
                 let a = args();
@@ -867,6 +871,20 @@ impl<'a, 'ast> Visit<'ast> for Rules<'a> {
     fn visit_expr_macro(&mut self, m: &'ast syn::ExprMacro) {
         let r = self.r(m.mac.span());
         self.handle_macro(&m.mac, r);
+    }
+
+    fn visit_arm(&mut self, a: &'ast syn::Arm) {
+        if let syn::Expr::Macro(m) = &*a.body {
+            self.visit_pat(&a.pat);
+            if let Some((_, g)) = &a.guard {
+                self.visit_expr(g);
+            }
+            self.arm_body_macro = true;
+            self.visit_expr_macro(m);
+            self.arm_body_macro = false;
+        } else {
+            visit::visit_arm(self, a);
+        }
     }
 
     fn visit_expr_lit(&mut self, l: &'ast syn::ExprLit) {
@@ -1416,7 +1434,7 @@ fn main() {
             Piece::Item(ln, anchor) => {
                 let (file, path) = anchor.split_once("::").unwrap_or_else(|| bail!("line {}: bad anchor {}", ln, anchor));
                 let src = srcs.entry(file.to_string()).or_insert_with(|| Src::load(root, file));
-                emit_item(src, path, &mut out, &mut functions);
+                emit_item(src, path, &bound_map, &mut out, &mut functions);
             }
             Piece::Struct(ln, anchor) => {
                 let (file, path) = anchor.split_once("::").unwrap_or_else(|| bail!("line {}: bad anchor {}", ln, anchor));
@@ -1506,9 +1524,25 @@ fn main() {
     std::fs::write(out_manifest, serde_json::to_string(&manifest).unwrap()).unwrap();
 }
 
-fn emit_item(src: &Src, name: &str, out: &mut Out, functions: &mut Vec<Value>) {
+fn emit_item(src: &Src, name: &str, bm: &[(String, String)], out: &mut Out, functions: &mut Vec<Value>) {
     // enums and consts: copied verbatim from the first token after the attributes
     let mut found: Option<(usize, usize)> = None;
+    // generics of an enum (R1: trait bounds mapped like everywhere else)
+    let mut generics: Option<(usize, usize)> = None;
+    fn gen_of(src: &Src, items: &[syn::Item], name: &str, g: &mut Option<(usize, usize)>) {
+        for it in items {
+            match it {
+                syn::Item::Enum(e) if e.ident == name && e.generics.lt_token.is_some() => *g = Some(src.range(e.generics.span())),
+                syn::Item::Mod(m) => {
+                    if let Some((_, its)) = &m.content {
+                        gen_of(src, its, name, g)
+                    }
+                }
+                _ => {}
+            }
+        }
+    }
+    gen_of(src, &src.file.items, name, &mut generics);
     fn walk(src: &Src, items: &[syn::Item], name: &str, found: &mut Option<(usize, usize)>) {
         for it in items {
             match it {
@@ -1550,6 +1584,12 @@ fn emit_item(src: &Src, name: &str, out: &mut Out, functions: &mut Vec<Value>) {
     } else if head.starts_with("pub(") {
         let close = head.find(')').unwrap() + 1;
         edits.push(Edit { start, end: start + close, rule: "RV".into(), parts: vec![lit("pub")], origin: None, prio: 0 });
+    }
+    if let Some(g) = generics {
+        let (n, used) = apply_bound_map(src.slice(g), bm);
+        if !used.is_empty() {
+            edits.push(Edit { start: g.0, end: g.1, rule: "R1".into(), parts: vec![lit(&n)], origin: None, prio: 0 });
+        }
     }
     render(src, &edits, start, end, out, 0);
     let _ = writeln!(out.text, "/*item:{}}}*/", k);
@@ -1775,7 +1815,7 @@ fn emit_fn(src: &Src, path: &str, fd: &FnDir, bm: &[(String, String)], unit: &st
 
     let imported = fd.imported_from.is_some();
     // ---- body rules
-    let mut rules = Rules { src, edits: vec![], stmts: vec![], loops: vec![], rename_self, unsupported: vec![], fmt_interp: fd.fmt_interp, fmt_items: vec![] };
+    let mut rules = Rules { src, edits: vec![], stmts: vec![], loops: vec![], rename_self, unsupported: vec![], fmt_interp: fd.fmt_interp, fmt_items: vec![], arm_body_macro: false };
     if !imported {
         rules.visit_block(block);
     }
